@@ -329,6 +329,14 @@ class Project(MessageHandler):
 
             scIdx: int = sc.sequenceNo - 1
 
+            # A scenario is scheduled once: calling schedule() again (the CLI does)
+            # must not re-attempt tasks that could not be placed on top of the
+            # bookings they left behind
+            done: set[int] = self.__dict__.setdefault("_scheduledScenarios", set())
+            if scIdx in done:
+                continue
+            done.add(scIdx)
+
             # Propagate inherited values
             AttributeBase.setMode(1)
             self.prepareScenario(scIdx)
